@@ -437,6 +437,10 @@ class Merge(Expr):
         # Blockwise merge
         return BlockwiseMerge(left, right, **self.kwargs)
 
+    def _additional_key_columns(self):
+        """Columns of (left, right) that the operation needs besides left_on / right_on"""
+        return [], []
+
     def _simplify_up(self, parent, dependents):
         if isinstance(parent, Filter):
             if not self._filter_passthrough_available(parent, dependents):
@@ -496,6 +500,11 @@ class Merge(Expr):
             right_on = _convert_to_list(self.right_on)
             if right_on is None:
                 right_on = []
+
+            # further key columns of subclasses (``by`` of merge_asof)
+            extra_left, extra_right = self._additional_key_columns()
+            left_on = left_on + extra_left
+            right_on = right_on + extra_right
 
             left_suffix, right_suffix = self.suffixes[0], self.suffixes[1]
             project_left, project_right = [], []
